@@ -27,6 +27,12 @@ def cases_for(tier, rng, structure=False):
     add("emptydirs", [srv.dnode(["d"], 1500000000)] + [srv.dnode(["d", "e%d" % i], 1500000001 + i) for i in range(5)]
         + [srv.dnode(["d", "e0", "inner"], 1500000100)])
     # files around and above the 4 GiB extent limit (sparse on disk)
+    # a directory whose records end exactly on / next to a sector boundary (primary and Joliet hierarchy): the encoder and the
+    # size calculation have to agree, or everything behind it is displaced
+    for joliet in (False, True):
+        for target in ([2048, 4096] if not full else [2046, 2048, 2050, 4096, 6144]):
+            nodes, total = isotrees.exact_fill_tree(target, joliet)
+            add("fill-%s-%d-%d" % ("joliet" if joliet else "iso", target, total), nodes)
     add("dirs150", isotrees.wide_tree(rng, 3, 150))     # the Joliet path table needs more sectors than the primary one
     for size in ([4 * GIB - 2048, 4 * GIB + 133, 2 * isotrees.P] if not full else
                  [4 * GIB - 2048, 4 * GIB - 1, 4 * GIB, 4 * GIB + 133, 2 * isotrees.P - 1, 2 * isotrees.P, 2 * isotrees.P + 1, 9 * GIB, 3 * isotrees.P]):
@@ -60,6 +66,30 @@ def design(rep, specdir, tier, prop):
                      % (cfg, res.distinct, len(DESIGN_GUARDS[prop])))
 
 
+def model_trees(specdir, rep, tier, rng):
+    """Model -> code: the small trees MC_IsoLayout enumerates (every placement of <= 2 files with sizes 0 .. 2 extents + 1 in
+    <= 3 directories), built for the real generator (sparse where large)."""
+    gen = common.run_tlc(specdir, "MC_IsoLayout.tla", "GEN_IsoLayout.cfg", workers=1, timeout=900, stack="1g")
+    common.tlc_must_pass(gen, "GEN_IsoLayout")
+    rep.add_tlc(gen)
+    trees = [json.loads(json.loads(x)) for x in gen.printed("TREE")]
+    if tier == "quick":
+        big = [t for t in trees if any(f["size"][0] > 2 for d in t for f in d["files"])]
+        trees = rng.sample(big, 40) + rng.sample(trees, 40)
+    cases = []
+    t0 = 1500000000
+    for i, t in enumerate(trees):
+        nodes = [srv.dnode(["d"] + d["path"], t0 + k) for k, d in enumerate(t)]
+        for k, d in enumerate(t):
+            for j, f in enumerate(d["files"]):
+                size = f["size"][0] * 2048 + f["size"][1]
+                nodes.append(srv.fnode(["d"] + d["path"] + [f["name"]], size, cid="mt%d_%d_%d" % (i, k, j), mtime=t0 + 100 + j,
+                                       islands=isotrees.big_islands(size) if size > 1 << 20 else None))
+        cases.append({"name": "model%d" % i, "nodes": nodes, "dir": ["d"], "ps3": False, "titleId": ["", ""], "decode": True,
+                      "osfs": False, "noCanon": any(f["size"][0] > 512 for d in t for f in d["files"]), "ops": []})
+    return cases
+
+
 def run(tier, seed, replay=None, prop=PROP, cfg=CFG, extra_cases=None):
     rep = common.Report(prop, tier, seed, "model_checking")
     rng = random.Random(seed * 2750159 + 7)
@@ -75,6 +105,7 @@ def run(tier, seed, replay=None, prop=PROP, cfg=CFG, extra_cases=None):
             cases = cases_for(tier, rng)
             if extra_cases:
                 cases += extra_cases(tier, rng)
+            cases += model_trees(specdir, rep, tier, rng)
         srv.run_and_validate(ctx, cases, rep, module=mod, cfg=cfg, max_rejections=16)
         if not replay:
             design(rep, specdir, tier, prop)
